@@ -26,16 +26,19 @@ var c13Shapes = []string{
 	"bare-header", "bad-bin-header+body", "bad-bin-trailer", "header-md", "body",
 	"trailer-ok", "trailer-err", "trailer-no-status", "reset+trailer", "reset-bare",
 	"body+trailer-ok", "unary-reply", "garbage-body", "trailer-md", "body2",
+	"bad-bin-trailer-err",
 }
 
-const c13NSym = 60 // 20 shapes x {call A, call B, unknown id}
+const c13NShapes = 21
+
+const c13NSym = 3 * c13NShapes // 21 shapes x {call A, call B, unknown id}
 
 func c13Payload(n int) []byte { return []byte(fmt.Sprintf("resp-%d", n)) }
 
 // c13Envelope builds response number n of shape sym for the given id; it returns the payload
 // carried in a decodable body (nil if none) and whether the envelope can end a stream successfully.
 func c13Envelope(sym int, n int, id uint64, method string) (*wire.Rpc, []byte, bool) {
-	shape := c13Shapes[sym%20]
+	shape := c13Shapes[sym%c13NShapes]
 	hdr := func(kv ...*goatorepo.KeyValue) *goatorepo.RequestHeader {
 		return &goatorepo.RequestHeader{Method: method, Source: "srv", Destination: "c0", Headers: kv}
 	}
@@ -81,6 +84,8 @@ func c13Envelope(sym int, n int, id uint64, method string) (*wire.Rpc, []byte, b
 		return &wire.Rpc{Id: id, Header: hdr(), Body: body, Trailer: &goatorepo.Trailer{}}, pl, true
 	case "garbage-body":
 		return &wire.Rpc{Id: id, Header: hdr(), Body: &goatorepo.Body{Data: []byte{0x0a, 0xff, 0xff, 0xff, 0xff, 0x0f}}}, nil, false
+	case "bad-bin-trailer-err":
+		return &wire.Rpc{Id: id, Header: hdr(), Status: errSt, Trailer: &goatorepo.Trailer{Metadata: []*goatorepo.KeyValue{{Key: "t-bin", Value: "%%%"}}}}, nil, false
 	case "trailer-md":
 		return &wire.Rpc{Id: id, Header: hdr(), Status: okSt, Trailer: &goatorepo.Trailer{Metadata: []*goatorepo.KeyValue{{Key: "tk", Value: "tv"}}}}, nil, true
 	}
@@ -248,7 +253,7 @@ func c13One(tier string, c c13Case, syms []int, res *core.Result, desc func() st
 	for n, s := range syms {
 		var id uint64
 		var method string
-		switch s / 20 {
+		switch s / c13NShapes {
 		case 0:
 			id, method = A.id, A.method
 		case 1:
@@ -321,7 +326,7 @@ func c13One(tier string, c c13Case, syms []int, res *core.Result, desc func() st
 func c13Desc(syms []int) string {
 	var parts []string
 	for _, s := range syms {
-		parts = append(parts, fmt.Sprintf("%s->%s", c13Shapes[s%20], []string{"A", "B", "unknown"}[s/20]))
+		parts = append(parts, fmt.Sprintf("%s->%s", c13Shapes[s%c13NShapes], []string{"A", "B", "unknown"}[s/c13NShapes]))
 	}
 	return "[" + strings.Join(parts, ", ") + "]"
 }
@@ -392,11 +397,11 @@ func init() {
 	core.Register(&core.Prop{
 		ID:    "C13",
 		Level: "exploration",
-		Rule:  "alphabet = 20 response shapes x addressed to {call A, call B, an unknown id} (60 symbols); a scripted server sends EVERY sequence up to length 3 (quick) / 4 (thorough) for the pairing unary+stream without stats handler and up to 2 / 3 for stream+stream and for both pairings with a stats handler, to a real client with the two calls outstanding (every accessor - Invoke, Header, receive loop, Trailer - in its own goroutine), then the connection is closed after exactly those envelopes; plus seeded random sequences of length 4..33. Oracle: process alive, every operation returned at the final state, every message returned is carried in order by an envelope addressed to that call, unary success has data, stream io.EOF only after a successful end addressed to it.",
+		Rule:  "alphabet = 21 response shapes x addressed to {call A, call B, an unknown id} (63 symbols); a scripted server sends EVERY sequence up to length 3 (quick) / 4 (thorough) for the pairing unary+stream without stats handler and up to 2 / 3 for stream+stream and for both pairings with a stats handler, to a real client with the two calls outstanding (every accessor - Invoke, Header, receive loop, Trailer - in its own goroutine), then the connection is closed after exactly those envelopes; plus seeded random sequences of length 4..33. Oracle: process alive, every operation returned at the final state, every message returned is carried in order by an envelope addressed to that call, unary success has data, stream io.EOF only after a successful end addressed to it.",
 		Plan:  func(tier string, seed int64) int { return len(c13List(tier)) },
 		Run:   c13Run,
 		Exhaustive: func(string) bool { return true },
 		RequiredStats: func(string) []string { return []string{"sequences_enum", "sequences_random", "sequences_with_stats_handler"} },
-		Assumptions:   []string{"exhaustive = every sequence over the 60-symbol alphabet up to the stated lengths per configuration"},
+		Assumptions:   []string{"exhaustive = every sequence over the 63-symbol alphabet up to the stated lengths per configuration"},
 	})
 }
